@@ -11,6 +11,7 @@ import (
 	"github.com/energomonitor/bisquitt/topics"
 
 	"verifharness/monitors"
+	"verifharness/mqttref"
 	"verifharness/rt"
 	"verifharness/snref"
 	"verifharness/world"
@@ -129,6 +130,7 @@ func runWorkloads(t *testing.T, r *rt.Run, wls []Workload, judge func(g *GWRun) 
 			return
 		}
 		vs, checked := judge(g)
+		observeShapes(r, g)
 		r.Count("antecedents_checked", checked)
 		r.Count("events", len(g.Evs))
 		r.Count("wl:"+w.Name, 1)
@@ -358,4 +360,73 @@ var wlConnectRandom = Workload{
 		}
 		return runConnectSeq(t, c, seq, auth, rng.Intn(len(credVariants)), rc, silent, gaps)
 	},
+}
+
+// observeShapes records, for the evidence, which distinct behaviours the run showed: what the gateway
+// sent between a waking PINGREQ and its PINGRESP (the order in which buffered and freshly arriving
+// packets left - this is where the two receive loops race) and how the session ended.
+func observeShapes(r *rt.Run, g *GWRun) {
+	asleep, waking := false, false
+	sleepReq := false
+	var flush []string
+	var tail []string
+	for _, it := range g.Items {
+		if it.Kind == world.Note && it.Note == "teardown" {
+			break
+		}
+		switch it.Kind {
+		case world.SNIn:
+			if it.SN == nil {
+				continue
+			}
+			switch it.SN.Type {
+			case snref.DISCONNECT:
+				sleepReq = it.SN.HasDur && it.SN.Duration > 0
+			case snref.PINGREQ:
+				if asleep {
+					waking, flush = true, nil
+				}
+			case snref.CONNECT:
+				asleep, waking = false, false
+			}
+		case world.SNOut:
+			if it.SN == nil {
+				continue
+			}
+			tn := snref.TypeName(it.SN.Type)
+			if it.SN.Type == snref.PUBLISH {
+				tn += fmt.Sprintf("q%d", it.SN.QoS)
+			}
+			if waking {
+				if it.SN.Type == snref.PINGRESP {
+					waking = false
+					if len(flush) > 0 {
+						r.Observe("wake-up flush order", strings.Join(flush, ","))
+					}
+				} else {
+					flush = append(flush, tn)
+				}
+			}
+			if it.SN.Type == snref.DISCONNECT && sleepReq {
+				asleep, sleepReq = true, false
+			}
+		}
+		switch it.Kind {
+		case world.SNOut, world.MQOut, world.CloseMG, world.CloseSG, world.End, world.CloseMB:
+			x := it.Kind
+			if it.SN != nil && it.Kind == world.SNOut {
+				x += ":" + snref.TypeName(it.SN.Type)
+			}
+			if it.MQ != nil && it.Kind == world.MQOut {
+				x += ":" + mqttref.TypeName(it.MQ.Type)
+			}
+			tail = append(tail, x)
+			if len(tail) > 4 {
+				tail = tail[1:]
+			}
+			if it.Kind == world.End {
+				r.Observe("how the session ended (last gateway actions)", strings.Join(tail, " "))
+			}
+		}
+	}
 }
